@@ -426,7 +426,11 @@ def _ser_check(run, judge, flags, counts, what, mc):
     open(out, "w").close()
     for mode, n in counts:
         part = run.path("ser-%s.ndjson" % mode)
-        _record_simple(run, exe, flags + [mode, str(n)], part, what)
+        ex = exe
+        if "@" in mode:       # "edge@8": the edge cases on a build with nesting limit 8 (deep = 8 levels: cheap to judge)
+            mode, L = mode.split("@")
+            ex = build_harness(run, build_lib(run, "dbg", L=int(L)), "h_ser", SER_SRC)
+        _record_simple(run, ex, flags + [mode, str(n)], part, what)
         with open(out, "ab") as fo, open(part, "rb") as fi:
             fo.write(fi.read())
     n = count_lines(out)
@@ -448,13 +452,13 @@ def _ser_check(run, judge, flags, counts, what, mc):
     return mc, res, out, n, cases, len(shapes), len(nontriv)
 
 
-TREE_RULE = "one case = one item tree: built by seeded random sequences of public construction calls (all builders, all widths, boundary values 0,23,24,255,256,65535,65536,2^32-1,2^32,2^64-1, empty and multi-chunk strings, definite containers with a spare slot, shared sub-items, two 2100-member arrays) or returned by cbor_load on a seeded random well-formed encoding (all argument widths incl. non-minimal); distinct = distinct tree shape (type, width, flavour, child count per node); non-trivial = at least two nodes"
+TREE_RULE = "one case = one item tree: built by seeded random sequences of public construction calls (all builders, all widths, boundary values 0,23,24,255,256,65535,65536,2^32-1,2^32,2^64-1, empty and multi-chunk strings, definite containers with a spare slot, shared sub-items, two 2100-member arrays; scalars also through cbor_new_* + cbor_set_*/cbor_mark_*; definite strings with a never-set handle; nesting at the decoder's limit and limit-1 for every opener kind; strings and chunks of 4095..65537 bytes) or returned by cbor_load on a seeded random well-formed encoding (all argument widths incl. non-minimal); distinct = distinct tree shape (type, width, flavour, child count per node); non-trivial = at least two nodes"
 
 
 def C03(run):
     q = run.quick()
     mc = tlc_mc(run, "MC_RoundTrip", "MC_RoundTrip" if q else "MC_RoundTrip_wide", workers=NCPU, timeout=3000)
-    mc, res, out, n, cases, shapes, nontriv = _ser_check(run, "C03", [], [("api", 2500 if q else 40000), ("dec", 2500 if q else 40000)], "serialization / round trip", mc)
+    mc, res, out, n, cases, shapes, nontriv = _ser_check(run, "C03", [], [("api", 2500 if q else 40000), ("dec", 2500 if q else 40000), ("edge@8", 1), ("edge", 3 if q else 0)], "serialization / round trip", mc)
     write_evidence(run, "model_checking", {
         "states": mc["distinct"], "transitions": mc["generated"], "traces_validated_against_impl": cases - len(res["rejects"]),
         "samples": _sample_lines(out, 2, lambda l: '"nc":2' in l), "evaluations": cases, "distinct_nontrivial": nontriv, "distinct_shapes": shapes,
@@ -466,7 +470,7 @@ def C03(run):
 def C07(run):
     q = run.quick()
     mc = tlc_mc(run, "MC_RoundTrip", workers=NCPU)
-    mc, res, out, n, cases, shapes, nontriv = _ser_check(run, "C07", ["--sern", "--wildhalf"], [("api", 700 if q else 12000), ("dec", 500 if q else 12000)], "size / serialize / serialize_alloc agreement", mc)
+    mc, res, out, n, cases, shapes, nontriv = _ser_check(run, "C07", ["--sern", "--wildhalf"], [("api", 700 if q else 12000), ("dec", 500 if q else 12000), ("edge", 0)], "size / serialize / serialize_alloc agreement", mc)
     lib = build_lib(run, "dbg")
     exe = build_harness(run, lib, "h_enc", ["vh.c", "h_enc.c"])
     eout = run.path("encn.ndjson")
@@ -511,7 +515,7 @@ def C10(run):
 def C11(run):
     q = run.quick()
     mc = tlc_mc(run, "MC_RoundTrip", workers=NCPU)
-    mc, res, out, n, cases, shapes, nontriv = _ser_check(run, "C11", ["--copy", "--wildhalf"], [("api", 2500 if q else 40000), ("dec", 1500 if q else 30000)], "cbor_copy", mc)
+    mc, res, out, n, cases, shapes, nontriv = _ser_check(run, "C11", ["--copy", "--wildhalf"], [("api", 2500 if q else 40000), ("dec", 1500 if q else 30000), ("edge", 0)], "cbor_copy", mc)
     write_evidence(run, "model_checking", {
         "states": mc["distinct"], "transitions": mc["generated"], "traces_validated_against_impl": cases - len(res["rejects"]),
         "samples": _sample_lines(out, 1, lambda l: '"copy"' in l and '"nc":2' in l), "evaluations": cases, "distinct_nontrivial": nontriv, "distinct_shapes": shapes,
